@@ -700,7 +700,7 @@ class Verifier:
         scenarios = expand_scenarios(c.params)
         rep.scenarios = len(scenarios)
         for si, scen in enumerate(scenarios):
-            if only is not None and si != only:
+            if only is not None and si not in only:
                 continue
             label = ','.join(f'{k}:{dom_label(v)}' for k, v in scen.items())
             n_before = len(rep.records)
@@ -907,7 +907,7 @@ class Verifier:
         rep.scenarios = len(scenarios)
         ex = self.explorer
         for si, scen in enumerate(scenarios):
-            if only is not None and si != only:
+            if only is not None and si not in only:
                 continue
             label = ','.join(f'{k}:{dom_label(v)}' for k, v in scen.items())
             names = list(scen)
